@@ -429,7 +429,11 @@ def _bound_degree(old_chunks, new_chunks, degree_limit):
             count = round(no * (nn / no) ** (t / nsteps))
             count = min(max(count, min(no, nn)), max(no, nn))
             # coarsen the finer endpoint so the intermediate aligns with it
-            intermediate.append(merge_to_number(oc if no > nn else nc, count))
+            # (merge_to_number uses 0 as its "merged away" marker, so zero-width
+            # chunks of the endpoint are dropped first; an intermediate layout
+            # does not need them)
+            finer = oc if no > nn else nc
+            intermediate.append(merge_to_number(tuple(c for c in finer if c) or finer, count))
         intermediate = tuple(intermediate)
         if intermediate != prev:  # drop steps that make no progress
             steps.append(intermediate)
